@@ -128,7 +128,9 @@ def _check_dt(cs, what, text, want_epoch, zone, z, ctx, exact=True):
         cs.count("offsets_with_seconds_checked")
         want_off = _dt.timedelta(0)
     got_epoch = int(dt.timestamp())
-    if got_epoch != int(want_epoch) or dt.utcoffset() != want_off:
+    # hash dates keep the fraction of the second, they have to be right to the microsecond
+    fraction_wrong = what == "hashdate" and exact and abs(dt.timestamp() - want_epoch) > 2.5e-6 and dt.microsecond != 0
+    if got_epoch != int(want_epoch) or dt.utcoffset() != want_off or fraction_wrong:
         wrong_instant = got_epoch != int(want_epoch)
         local_ok = dt.replace(tzinfo=None) == _dt.datetime.fromtimestamp(want_epoch, z).replace(tzinfo=None, microsecond=0 if what != "hashdate" else dt.microsecond)
         key = "dst-offset-from-now" if local_ok and dt.utcoffset() != want_off else "timestamp-wrong"
@@ -149,6 +151,10 @@ def run_case(cs):
         return
     year = rng.choice([2019, 2021, 2024, 2025, 2026, 2027, 2028])
     now, now_side = _instant(rng, zone, year)
+    # the clock is rarely at a full second: fractions with leading zeros, just below the next second, ...
+    frac = rng.choice([0, 0, 1, 45, 4500, 50000, 99999, 100000, 250000, 500000, 999999])
+    now = now + frac / 1e6
+    cs.count("clock_fraction:" + ("0" if frac == 0 else "below-0.1s" if frac < 100000 else "0.1s-and-more"))
     d = cs.dir()
     root = os.path.join(d, world.root_name(rng))
     os.makedirs(os.path.join(root, "sub"))
